@@ -299,8 +299,25 @@ func (r *pdRun) buildMsg(ci int, retransmit []byte) ([]byte, string) {
 	msg := pkt.Msg6(typ, r.xid, opts)
 	depth := []int{0, 0, 0, 1, 1, 2}[r.rng.Intn(6)]
 	for d := 0; d < depth; d++ {
-		msg = pkt.Relay6(12, byte(d), net.ParseIP(fmt.Sprintf("2001:db8:%x::1", d+1)), net.ParseIP(fmt.Sprintf("fe80::%x", d+1)),
-			[]pkt.Opt6{pkt.O6(pkt.OptInterfaceID, []byte(fmt.Sprintf("eth%d", d)))}, msg)
+		// what the relays add changes from message to message (a client that moved to another port or line, a
+		// relay that was reconfigured, a renewal that is relayed while the rebind is not): the client is its DUID
+		ro := []pkt.Opt6{pkt.O6(pkt.OptInterfaceID, []byte(fmt.Sprintf("eth%d", d)))}
+		if r.rng.Intn(2) == 0 {
+			ro[0] = pkt.O6(pkt.OptInterfaceID, []byte(fmt.Sprintf("port-%d", r.rng.Intn(4))))
+		}
+		if r.rng.Intn(2) == 0 {
+			ro = append(ro, pkt.O6(pkt.OptRemoteID, []byte{0, 0, 0x0d, 0xe9, 'l', 'i', 'n', 'e', byte('0' + r.rng.Intn(3))}))
+		}
+		if r.rng.Intn(3) == 0 {
+			ro = append(ro, pkt.O6(38, []byte(fmt.Sprintf("subscriber-%d", r.rng.Intn(3)))))
+		}
+		if r.rng.Intn(3) == 0 {
+			ro = append(ro, pkt.O6(pkt.OptClientLL, []byte{0, 1, 2, 0, 0, 0, byte(r.rng.Intn(3)), 1}))
+		}
+		if r.rng.Intn(4) == 0 {
+			ro = append(ro, relayAgentOpts6(r.rng)...)
+		}
+		msg = pkt.Relay6(12, byte(d), net.ParseIP(fmt.Sprintf("2001:db8:%x::1", d+1)), net.ParseIP(fmt.Sprintf("fe80::%x", d+1)), ro, msg)
 	}
 	return msg, fmt.Sprintf("c%d type=%d relay=%d %s", ci, typ, depth, strings.Join(desc, " "))
 }
